@@ -344,6 +344,9 @@ def add(a, b):
         return b
     if b.is_const() and b.const() == 0:
         return a
+    # x + (-x) = 0  (keeps "same value" tests such as isclose(q, q) decidable without a solver)
+    if (b.op == "neg" and b.args[0] == a.n) or (a.op == "neg" and a.args[0] == b.n):
+        return ZERO
     return Sym(_mk("+", a.n, b.n))
 
 
